@@ -21,6 +21,8 @@ type planner struct {
 	known map[uint32]string
 	nv    int
 	extra int
+	// readMhc: the call sets of the stale scenarios include GetAggregateCommit on an emptied pool (stale.go)
+	readMhc bool
 }
 
 // do executes the op on the planner's node - this IS the implementation run of the case: output
@@ -28,6 +30,9 @@ type planner struct {
 // per case (every node leaks ~8 MB of pebble cache because db.Close fails on leaked iterators).
 func (p *planner) do(op string) string {
 	out, f := p.s.exec(op, len(p.ops))
+	if out == "unsynced" {
+		panic("c06 planner: op on a chain the model was not told about: " + op)
+	}
 	p.ops = append(p.ops, op)
 	p.outs = append(p.outs, out)
 	p.fails = append(p.fails, f...)
@@ -577,7 +582,12 @@ var badVariants = []string{"fork", "wrongid", "chain2", "garbage", "inf", "short
 
 // genCommits: single commits through the gossip validator.
 func genCommits(rng *rand.Rand, c config, long bool) []string {
-	p := newPlanner(rng, c)
+	var p *planner
+	if long {
+		p = newPlanner(rng, c)
+	} else {
+		p = newPlannerTwin(rng, c) // with the history-independence oracle (twin.go)
+	}
 	defer p.s.close()
 	H := uint32(0)
 	if long {
@@ -685,7 +695,7 @@ func genCommits(rng *rand.Rand, c config, long bool) []string {
 
 // genCertify: Executer.Certify over ranges, across validator changes, repeated, with a foreign key.
 func genCertify(rng *rand.Rand, c config) []string {
-	p := newPlanner(rng, c)
+	p := newPlannerTwin(rng, c) // with the history-independence oracle (twin.go)
 	defer p.s.close()
 	p.grow(2)
 	H := uint32(0)
@@ -739,7 +749,7 @@ func genCertify(rng *rand.Rand, c config) []string {
 // active validator certifies the range, the next block carries GetAggregateCommit() - across
 // validator changes.  maxHeightCertified has to pass every change.
 func genLifecycle(rng *rand.Rand, c config) []string {
-	p := newPlanner(rng, c)
+	p := newPlannerTwin(rng, c) // with the history-independence oracle (twin.go)
 	defer p.s.close()
 	lastFin := uint32(0)
 	changes := []uint32{}
@@ -805,7 +815,7 @@ func genLifecycle(rng *rand.Rand, c config) []string {
 // enter the pool (LIP-0061: parameters stored for height+1); the block is then replaced in a
 // reorganisation. The stale entries must not spoil the certificate of the replacing block.
 func genReorg(rng *rand.Rand, c config) []string {
-	p := newPlanner(rng, c)
+	p := newPlannerTwin(rng, c) // with the history-independence oracle (twin.go)
 	defer p.s.close()
 	p.grow(2)
 	if rng.Intn(2) == 0 {
@@ -980,6 +990,9 @@ func (prop) Generate(rng *rand.Rand, tier string) []corr.Case {
 		x := x
 		add(fmt.Sprintf("boundary-%d", x.nv), rep, func(r *rand.Rand) []string { return genBoundary(r, fixedConfig(r, x.nv), x.kind) })
 	}
+	// call -> own-chain change -> call for every entry point, kind of change and kind of difference (stale.go);
+	// added last: the cases above keep their seeds
+	staleJobs(rng, thorough, add)
 
 	cases := make([]corr.Case, len(jobs))
 	var wg sync.WaitGroup
